@@ -248,6 +248,9 @@ func (g *groupModel) serveGroup(br *mbroker, c *simConn, h reqHeader, body inter
 		if g.onHeartbeat != nil {
 			g.onHeartbeat(mg, r, e)
 		}
+		if g.onHeartbeatAns != nil {
+			g.onHeartbeatAns(h.client, r, e, c, h.corr)
+		}
 		return enc(&sarama.HeartbeatResponse{Err: e})
 	case *sarama.LeaveGroupRequest:
 		if e := gate(); e != sarama.ErrNoError {
